@@ -1724,6 +1724,9 @@ def loadArmFromURDF(file_name):
 
     def completeJointParse(new_element, parent):
         #print(new_element.name)
+        # URDF defaults for optional children: axis (1 0 0), identity origin
+        new_element.axis = np.array([1.0, 0.0, 0.0])
+        new_element.xyz_origin = tm()
         for child in parent:
             if child.tag == 'axis':
                 axis = np.array(child.get('xyz').split(), dtype=float)
